@@ -66,6 +66,9 @@ const SHAPES: &[&str] = &[
     "p(Y0, $t) :- $G.",
     "{p($A, Y0)} :- $G, not r($t).",
     ":- $G, not r(Y0, $t), not not r($A).",
+    // several intervals in one head
+    "p(1..2, $t, 0..1) :- $G.",
+    "{p($A..1, 0..$A, $t)} :- $G.",
     // literals of large arity (the fresh names Z10, Z11 sort before Z2)
     "p :- $G, w($A, 1, 2, 3, 4, 5, 6, 7, 8, 9, $t, $A).",
     "w($A, 1, 2, 3, 4, 5, 6, 7, 8, 9, $t) :- $G.",
